@@ -7,6 +7,7 @@ use crate::{Error, Result, StorageConfig};
 
 use arrow_array::RecordBatch;
 use arrow_schema::SchemaRef;
+use datafusion::common::tree_node::TreeNodeRecursion;
 use datafusion::datasource::empty::EmptyTable;
 use datafusion::datasource::file_format::parquet::ParquetFormat;
 use datafusion::datasource::listing::{
@@ -424,14 +425,52 @@ impl QueryEngine {
 
         Self::extract_time_bounds(plan, &mut min_time, &mut max_time);
 
-        // Default to last hour if no time bounds found
+        // Default to last hour if the query has no time predicate at all. A time
+        // predicate that could not be turned into a bound (now() arithmetic,
+        // TIMESTAMP or string literals, to_timestamp(), OR with a non-time branch,
+        // NOT BETWEEN, predicates below a subquery or join) must leave that side of
+        // the scan unbounded: narrowing it to the last hour would drop rows the
+        // query accepts.
         let now = chrono::Utc::now().timestamp_nanos_opt().unwrap_or(0);
         let hour_ago = now - 3_600_000_000_000;
+        let (default_min, default_max) = if Self::has_time_predicate(plan) {
+            (i64::MIN, i64::MAX)
+        } else {
+            (hour_ago, now)
+        };
 
         Ok(TimeRange::new(
-            min_time.unwrap_or(hour_ago),
-            max_time.unwrap_or(now),
+            min_time.unwrap_or(default_min),
+            max_time.unwrap_or(default_max),
         ))
+    }
+
+    /// Whether any filter or join condition of the plan (subqueries included)
+    /// mentions the time column.
+    fn has_time_predicate(plan: &LogicalPlan) -> bool {
+        let mut found = false;
+        let _ = plan.apply_with_subqueries(|node| {
+            if Self::node_has_time_predicate(node) {
+                found = true;
+                Ok(TreeNodeRecursion::Stop)
+            } else {
+                Ok(TreeNodeRecursion::Continue)
+            }
+        });
+        found
+    }
+
+    /// Whether this plan node is a filter or join whose condition mentions the time column.
+    fn node_has_time_predicate(node: &LogicalPlan) -> bool {
+        matches!(node, LogicalPlan::Filter(_) | LogicalPlan::Join(_))
+            && node.expressions().iter().any(Self::mentions_time_column)
+    }
+
+    /// Whether an expression refers to the time column.
+    fn mentions_time_column(expr: &Expr) -> bool {
+        expr.column_refs()
+            .iter()
+            .any(|col| col.name == "timestamp" || col.name == "time")
     }
 
     /// Recursively extract time bounds from a logical plan
